@@ -44,8 +44,10 @@ func verifDeliverName(w *inotify, wd uint32, mask, cookie uint32, name string) (
 	ev.Wd = int32(wd)
 	ev.Mask = mask
 	ev.Cookie = cookie
-	ev.Len = uint32((len(name)/16 + 1) * 16)
-	copy(buf[16:], name)
+	if name != "" {
+		ev.Len = uint32((len(name)/16 + 1) * 16)
+		copy(buf[16:], name)
+	}
 	return w.handleEvent(ev, &buf, 0)
 }
 
@@ -246,4 +248,50 @@ func H_rec_add() {
 		}
 	}
 	verifReach("rec-add")
+}
+
+// A directory of the tree is renamed onto another (empty) watched directory of
+// the tree: the replaced directory's watch ends (IN_DELETE_SELF, IN_IGNORED),
+// the renamed directory stays covered under the new name, and removing the
+// recursive root afterwards still removes everything.
+func H_rec_rename_onto() {
+	verifKReset()
+	w := verifNewInotify(0)
+	verifSetupRec(w, len(verifRecPaths))
+	w.cookieIndex = verifU8("ringindex")
+	verifAssume(w.cookieIndex <= 9)
+	pi, ai, bi := verifRecIndex("/r"), verifRecIndex("/r/sub"), verifRecIndex("/r/sub2")
+	a, b := verifRecT[ai], verifRecT[bi]
+	for i := 0; i < verifNRecT; i++ {
+		verifK.marks[i] = verifMark{state: kLive, wd: int32(verifRecT[i].wd), ino: i}
+	}
+	verifK.nIno = verifNRecT
+	c := verifU32("cookie")
+	verifAssume(c != 0)
+	ev1, ok1 := verifDeliverName(w, verifRecT[pi].wd, unix.IN_MOVED_FROM|unix.IN_ISDIR, c, "sub")
+	verifAssert(ok1 && ev1.Op == Rename && ev1.Name == "/r/sub", "Rename(old)")
+	verifK.addResolve = ai // the name sub2 now resolves to the renamed directory's inode
+	ev2, ok2 := verifDeliverName(w, verifRecT[pi].wd, unix.IN_MOVED_TO|unix.IN_ISDIR, c, "sub2")
+	verifAssert(ok2 && ev2.Op == Create && ev2.Name == "/r/sub2" && ev2.renamedFrom == "/r/sub", "Create(new) carrying the old name")
+	// the replaced directory is gone: its own watch gets the terminal notifications
+	verifK.marks[bi].state = kDying
+	_, ok3 := verifDeliver2(w, b.wd, unix.IN_DELETE_SELF|unix.IN_ISDIR)
+	_, ok4 := verifDeliver2(w, b.wd, unix.IN_IGNORED)
+	verifAssert(ok3 && ok4, "reader keeps running")
+	ww := w.watches.wd[a.wd]
+	verifAssert(ww != nil && ww.path == "/r/sub2", "the renamed directory is tracked under the new name")
+	k, listed := w.watches.path["/r/sub2"]
+	verifAssert(listed && k == a.wd, "the new name maps to the renamed directory's watch, also after the replaced directory's watch has ended")
+	fe, okf := verifDeliverName(w, a.wd, unix.IN_CREATE, 0, "file")
+	verifAssert(okf && fe.Name == "/r/sub2/file", "changes in the renamed directory are reported under the new name")
+	// removing the recursive root stops reports from the whole tree
+	_ = w.Remove("/r/...")
+	verifAssert(w.watches.wd[a.wd] == nil, "after Remove of the recursive root the renamed directory is no longer watched")
+	late, _ := verifDeliverName(w, a.wd, unix.IN_CREATE, 0, "file2")
+	verifAssert(late.Op == 0, "no event is reported from the removed tree after Remove has returned")
+	verifReach("rec-rename-onto")
+}
+
+func verifDeliver2(w *inotify, wd uint32, mask uint32) (Event, bool) {
+	return verifDeliverName(w, wd, mask, 0, "")
 }
